@@ -62,6 +62,9 @@ func (w c28) Gen(r *sim.Rng, tier string) *scn.Scn {
 	if r.Chance(1, 4) {
 		s.P["dynamic"] = 1
 	}
+	if r.Chance(4, 5) {
+		s.P["focus"] = int64(r.U64()>>2) | 1
+	}
 	muts := c28MutAll
 	switch w.id {
 	case "C11":
@@ -379,16 +382,54 @@ func scalarOfKind(r *sim.Rng, fd protoreflect.FieldDescriptor) model.Scalar {
 	return s
 }
 
+// c28Focus is set for the duration of a scenario: most field choices fall
+// into a small focus set of fields of the root type (two singular message
+// fields, three scalars, a list, a map, two oneof members), so that a history
+// keeps coming back to the same fields (Mutable, Clear, Mutable again, Set,
+// Merge ...) instead of spreading thinly over a hundred.
+var c28Focus map[protoreflect.FullName]bool
+
+func c28MakeFocus(md protoreflect.MessageDescriptor, seed uint64) map[protoreflect.FullName]bool {
+	if seed == 0 {
+		return nil
+	}
+	r := sim.NewRng(seed)
+	set := map[protoreflect.FullName]bool{}
+	take := func(n int, pred func(fd protoreflect.FieldDescriptor) bool) {
+		var c []protoreflect.FieldDescriptor
+		for i := 0; i < md.Fields().Len(); i++ {
+			if fd := md.Fields().Get(i); pred(fd) && !fd.IsWeak() {
+				c = append(c, fd)
+			}
+		}
+		for i := 0; i < n && len(c) > 0; i++ {
+			set[c[r.Intn(len(c))].FullName()] = true
+		}
+	}
+	take(2, func(fd protoreflect.FieldDescriptor) bool { return isSingularMsg(fd) && fd.ContainingOneof() == nil })
+	take(3, func(fd protoreflect.FieldDescriptor) bool { return isSingularScalar(fd) && fd.ContainingOneof() == nil })
+	take(1, func(fd protoreflect.FieldDescriptor) bool { return fd.IsList() })
+	take(1, func(fd protoreflect.FieldDescriptor) bool { return fd.IsMap() })
+	take(2, func(fd protoreflect.FieldDescriptor) bool { return fd.ContainingOneof() != nil })
+	return set
+}
+
 func pickFD(md protoreflect.MessageDescriptor, n int64, pred func(fd protoreflect.FieldDescriptor) bool) protoreflect.FieldDescriptor {
-	var c []protoreflect.FieldDescriptor
+	var c, f []protoreflect.FieldDescriptor
 	fds := md.Fields()
 	for i := 0; i < fds.Len(); i++ {
 		if fd := fds.Get(i); pred(fd) && !fd.IsWeak() {
 			c = append(c, fd)
+			if c28Focus[fd.FullName()] {
+				f = append(f, fd)
+			}
 		}
 	}
 	if len(c) == 0 {
 		return nil
+	}
+	if len(f) > 0 && n%6 != 0 {
+		return f[int(n/7)%len(f)]
 	}
 	return c[int(n)%len(c)]
 }
@@ -939,6 +980,8 @@ func (w c28) Run(s *scn.Scn, x *sim.Exec) {
 		return gen.NewMsg(typ)
 	}
 	p := &c28Pair{am: model.NewMsg(gen.Type(typ).Descriptor()), m: newMsg()}
+	c28Focus = c28MakeFocus(gen.Type(typ).Descriptor(), uint64(s.P["focus"]))
+	defer func() { c28Focus = nil }()
 	muts, oneofOps, zeroSets := 0, 0, 0
 	otherAspects := 0
 	for pi := range s.Phases {
